@@ -309,18 +309,23 @@ structure ConvOut where
   logs : List LogRec
   res : Except Exc (List Str)
 
+/-- the files `xls2xform_convert` writes once `convert` has returned: the XForm, then itemsets.csv beside it -/
+def written (fs : FS) (outDir outName : Str) (cr : ConvertResult) : FS :=
+  match cr.itemsets with
+  | none => FS.write fs (.file outDir outName) cr.xform
+  | some items => FS.write (FS.write fs (.file outDir outName) cr.xform) (.file outDir itemsetsName) items
+
+def itemsLogs (outDir : Str) (cr : ConvertResult) : List LogRec :=
+  match cr.itemsets with
+  | none => []
+  | some _ => [.info (fmt1 itemsetsLogFmt (pathStr outDir itemsetsName))]
+
 /-- `xls2xform_convert` (xls2xform.py:127-149): outputs are written only after `convert` returned. -/
 def xls2xformConvert (form : Form) (t : Nat) (outDir outName : Str) (validate pretty : Bool) (env : Env) (fs : FS) : ConvOut :=
-  let r := convert form t validate pretty env fs
-  match r.res with
-  | .error e => ⟨r.fs, r.seen, [], .error e⟩
-  | .ok cr =>
-    let fs1 := FS.write r.fs (.file outDir outName) cr.xform
-    match cr.itemsets with
-    | none => ⟨fs1, r.seen, [], .ok cr.warnings⟩
-    | some items =>
-      ⟨FS.write fs1 (.file outDir itemsetsName) items, r.seen,
-       [.info (fmt1 itemsetsLogFmt (pathStr outDir itemsetsName))], .ok cr.warnings⟩
+  match (convert form t validate pretty env fs).res with
+  | .error e => ⟨(convert form t validate pretty env fs).fs, (convert form t validate pretty env fs).seen, [], .error e⟩
+  | .ok cr => ⟨written (convert form t validate pretty env fs).fs outDir outName cr,
+               (convert form t validate pretty env fs).seen, itemsLogs outDir cr, .ok cr.warnings⟩
 
 /-- the parsed command line.  `skipValidate` is the *stored* value (argparse `store_false`):
 `true` unless `--skip_validate` was given. -/
@@ -361,33 +366,44 @@ structure CliOut where
   json : Option JsonResp
   raised : Option Exc        -- exception propagating out of main_cli
 
+/-- the output path `main_cli` uses: the one given, else `get_xml_path(input)` -/
+def outPathOf (inDir inName : Str) (out : Option (Str × Str)) : Str × Str :=
+  match out with
+  | some p => p
+  | none => (inDir, getXmlName inName)
+
+/-- `main_cli`, `if args.json:` branch (xls2xform.py:231-256): everything is caught and reported as JSON. -/
+def jsonReport (r : ConvOut) : CliOut :=
+  match r.res with
+  | .ok w =>
+    let resp : JsonResp := if w ≠ [] then ⟨codeWarn, msgOkWarn, w⟩ else ⟨codeOk, msgOk, w⟩
+    ⟨r.fs, r.seen, r.logs, some resp, none⟩
+  | .error e => ⟨r.fs, r.seen, r.logs, some ⟨codeFail, e.msg, []⟩, none⟩
+
+/-- `main_cli`, plain branch (xls2xform.py:257-278): OSError and ODKValidateError are logged (the latter after
+unlinking the output path), any other exception propagates. -/
+def plainReport (r : ConvOut) (outDir outName : Str) : CliOut :=
+  match r.res with
+  | .error (.osError m) =>
+    ⟨r.fs, r.seen, r.logs ++ [.exception (plainLogFor "OSError") (Exc.osError m).cls], none, none⟩
+  | .error (.odkValidate m) =>
+    ⟨FS.unlink r.fs (.file outDir outName), r.seen,
+     r.logs ++ [.exception (plainLogFor "ODKValidateError") (Exc.odkValidate m).cls], none, none⟩
+  | .error e => ⟨r.fs, r.seen, r.logs, none, some e⟩
+  | .ok w =>
+    ⟨r.fs, r.seen,
+     r.logs ++ (if w.length > 0 then [.warning logWarningsHeader] else []) ++ w.map .warning ++ [.info logComplete],
+     none, none⟩
+
 /-- `main_cli` (xls2xform.py:220-278).  `out = none`: no output path on the command line.
 Enketo validation is outside the modelled fragment (`none`). -/
 def mainCli (raw : Args) (inDir inName : Str) (out : Option (Str × Str)) (form : Form) (t : Nat) (env : Env) (fs : FS) :
     Option CliOut :=
   let a := validatorArgsLogic raw
   if a.enketoValidate then none else
-  let (outDir, outName) := match out with
-    | some p => p
-    | none => (inDir, getXmlName inName)
+  let outDir := (outPathOf inDir inName out).1
+  let outName := (outPathOf inDir inName out).2
   let r := xls2xformConvert form t outDir outName a.odkValidate a.prettyPrint env fs
-  if a.json then
-    match r.res with
-    | .ok w =>
-      let resp : JsonResp := if w ≠ [] then ⟨codeWarn, msgOkWarn, w⟩ else ⟨codeOk, msgOk, w⟩
-      some ⟨r.fs, r.seen, r.logs, some resp, none⟩
-    | .error e => some ⟨r.fs, r.seen, r.logs, some ⟨codeFail, e.msg, []⟩, none⟩
-  else
-    match r.res with
-    | .error (.osError m) =>
-      some ⟨r.fs, r.seen, r.logs ++ [.exception (plainLogFor "OSError") (Exc.osError m).cls], none, none⟩
-    | .error (.odkValidate m) =>
-      some ⟨FS.unlink r.fs (.file outDir outName), r.seen,
-            r.logs ++ [.exception (plainLogFor "ODKValidateError") (Exc.odkValidate m).cls], none, none⟩
-    | .error e => some ⟨r.fs, r.seen, r.logs, none, some e⟩
-    | .ok w =>
-      some ⟨r.fs, r.seen,
-            r.logs ++ (if w.length > 0 then [.warning logWarningsHeader] else []) ++ w.map .warning ++ [.info logComplete],
-            none, none⟩
+  some (if a.json then jsonReport r else plainReport r outDir outName)
 
 end Pyxv.Validator
